@@ -25,6 +25,22 @@ def _memo(f):
     return g
 
 BOUNDS = ["C", "A"]
+
+
+def weighted(*pairs):
+    """one_of with explicit weights (st.one_of flattens nested alternatives, which
+    starves composite branches)."""
+    total = sum(w for w, _ in pairs)
+
+    def sel(n):
+        for w, s in pairs:
+            if n < w:
+                return s
+            n -= w
+        raise AssertionError
+
+    return st.integers(0, total - 1).flatmap(sel)
+
 NAMES = st.sampled_from(["a", "foo", "My.Type", "x_1", "", "ü∀", "T", "q"])
 EXT_NAMES = st.sampled_from(["my.ext", "aaa", "zzz", "ext.b"])
 REQS = st.lists(EXT_NAMES, max_size=2, unique=True)
@@ -66,9 +82,9 @@ def _leaf_types(copy_only: bool, tvars: list | None):
         st.just({"k": "string"}),
         st.tuples(NAMES, st.just("C") if copy_only else st.sampled_from(BOUNDS)).map(lambda t: {"k": "alias", "name": t[0], "b": t[1]}),
     ]
+    lin = None
     if not copy_only:
-        leaves.append(st.just({"k": "qubit"}))
-        leaves.append(st.just({"k": "qubit"}))
+        lin = st.one_of(st.just({"k": "qubit"}), NAMES.map(lambda n: {"k": "alias", "name": n, "b": "A"}))
     if tvars:
         cands = [(i, p) for i, p in enumerate(tvars) if p["k"] == "type" and (not copy_only or p["b"] == "C")]
         if cands:
@@ -76,6 +92,8 @@ def _leaf_types(copy_only: bool, tvars: list | None):
         nats = [(i, p) for i, p in enumerate(tvars) if p["k"] == "nat" and p["max"] == 7]
         if nats:
             leaves.append(st.sampled_from(nats).map(lambda ip: {"k": "intvar", "i": ip[0]}))
+    if lin is not None:
+        return weighted((5, st.one_of(*leaves)), (1, lin))
     return st.one_of(*leaves)
 
 
@@ -103,9 +121,14 @@ def types(depth: int = 3, copy_only: bool = False, tvars: list | None = None):
     row = rows(sub, tvars, copy_only)
     anyrow = rows(anysub, tvars, False)
     opaque_bound = st.just("C") if copy_only else st.sampled_from(BOUNDS)
+    return weighted(
+        (3, leaf),
+        (8, _composite_types(depth, copy_only, tvars, leaf, sub, anysub, csub, row, anyrow, opaque_bound)),
+    )
+
+
+def _composite_types(depth, copy_only, tvars, leaf, sub, anysub, csub, row, anyrow, opaque_bound):
     return st.one_of(
-        leaf,
-        leaf,
         st.lists(row, max_size=3).map(lambda rs: {"k": "sum", "rows": rs}),
         row.map(lambda ts: {"k": "tuple", "ts": ts}),
         row.map(lambda ts: {"k": "option", "ts": ts}),
@@ -250,7 +273,7 @@ def value_of(t, depth: int = 3):
     if k == "string":
         return st.text(max_size=5).map(lambda s: {"k": "string", "s": s})
     if k == "fn":
-        return st.just({"k": "function", "i": t["i"], "o": t["o"]})
+        return st.just({"k": "function", "i": t["i"], "o": t["o"], "reqs": list(t.get("reqs", []))})
     if k == "opaque":
         return st.tuples(
             st.sampled_from(["ConstX", "c", ""]),
@@ -391,3 +414,55 @@ def rowpoly_calls(draw, depth=2):
         else:
             targs.append(draw(arg_for_param(p, depth - 1)))
     return {"k": k, "params": ps, "i": i, "o": o, "reqs": draw(REQS), "targs": targs}
+
+
+# ------------------------------------------------------------------ generated extension types
+
+
+@st.composite
+def typedefs(draw, force_copy=False):
+    """Generated TypeDef description: explicit bound or from-params bound whose
+    indices name TypeTypeParams (the documented domain)."""
+    ps = draw(st.lists(params(1), max_size=3))
+    tidx = [i for i, p in enumerate(ps) if p["k"] == "type"]
+    if force_copy or not tidx or draw(st.integers(0, 2)) == 0:
+        b = {"b": "E", "v": "C" if force_copy else draw(st.sampled_from(BOUNDS))}
+    else:
+        idx = draw(st.lists(st.sampled_from(tidx), min_size=1, max_size=3))
+        b = {"b": "F", "idx": idx}
+    return {"ext": draw(EXT_NAMES), "name": draw(NAMES), "params": ps, "bound": b, "desc": draw(DESCS)}
+
+
+@st.composite
+def ext_types(draw, depth=2, nest=1):
+    d = draw(typedefs())
+    inner = types_x(depth - 1, nest - 1) if nest > 0 else types(depth - 1)
+    a = []
+    for p in d["params"]:
+        if p["k"] == "type":
+            t = draw(types(depth - 1, copy_only=True) if p["b"] == "C" else inner)
+            a.append({"k": "type", "t": t})
+        else:
+            a.append(draw(arg_for_param(p, depth - 1)))
+    return {"k": "ext", "def": d, "args": a}
+
+
+def types_x(depth=3, nest=1):
+    """Types that may contain generated extension types (also nested inside sums,
+    tuples, arrays and as arguments of other extension types)."""
+    base = types(depth)
+    if depth <= 0:
+        return base
+    e = ext_types(depth, nest)
+    row = st.lists(weighted((2, base), (1, e)), max_size=3)
+    return weighted((2, base), (3, e), (3, _composite_x(row, e)))
+
+
+def _composite_x(row, e):
+    return st.one_of(
+        row.map(lambda ts: {"k": "tuple", "ts": ts}),
+        st.lists(row, max_size=3).map(lambda rs: {"k": "sum", "rows": rs}),
+        row.map(lambda ts: {"k": "option", "ts": ts}),
+        st.tuples(st.integers(0, 3), e).map(lambda t: {"k": "array", "n": t[0], "t": t[1]}),
+        e.map(lambda t: {"k": "list", "t": t}),
+    )
